@@ -7,7 +7,7 @@ import subprocess
 from . import refinterp as I
 from . import refnum as R
 from . import refparse as P
-from .common import HYEONG, WORK, MachineryError, Stats, Violation, collect, finish, hx, pmap, shim, child_setup
+from .common import strip_log_lines, HYEONG, WORK, MachineryError, Stats, Violation, collect, finish, hx, pmap, shim, child_setup
 from .eng_compile import emit, rustc
 
 U = ['\x00', 'a', '\x7f', '\x80', '\u07ff', '\u0800', '\ud7ff', '\ue000', '\uffff', '\U00010000', '\U0010ffff', '\n', '\r']
@@ -45,8 +45,7 @@ def validate_programs():
 
 
 def strip_banner(out):
-    i = out.find(b'==> running code\n')
-    return out[i + len(b'==> running code\n'):] if i >= 0 else None
+    return strip_log_lines(out)
 
 
 def build_all():
